@@ -422,7 +422,7 @@ impl CanonicalRequest {
             it4.seq().len() == signed_header_requirements.prefixes_spec().len(),
             forall|i: int| 0 <= i < it4.seq().len() ==> cow_bytes(*(#[trigger] it4.seq()[i])) == signed_header_requirements.prefixes_spec()[i],
             forall|i: int| 0 <= i < signed_header_requirements.prefixes_spec().len() ==> all_ascii(#[trigger] signed_header_requirements.prefixes_spec()[i]),
-            forall|i: int, k: Seq<u8>| 0 <= i < it4.index@ && #[trigger] hv.contains_key(k) && lower(#[trigger] signed_header_requirements.prefixes_spec()[i]).is_prefix_of(k) ==> signed.contains(k), //# C05 name=prefix_requirements_prefix_checked
+            forall|i: int, k: Seq<u8>| 0 <= i < it4.index@ && #[trigger] hv.contains_key(k) && lower(#[trigger] signed_header_requirements.prefixes_spec()[i]).is_prefix_of(k) ==> signed.contains(k), //# C05 C18 name=prefix_requirements_prefix_checked
 //@ before 1 `for http_header in self.headers.keys() {`
             let ghost pfx = str_bytes(header_lower@);
             proof { lemma_string_key_model(); assert(pfx == lower(signed_header_requirements.prefixes_spec()[it4.index@])); }
